@@ -147,6 +147,42 @@ theorem source_one_credit_per_delivery : oneCreditPerDelivery = true := by decid
 
 /-! ### flows buffered by a listener until the link is accepted -/
 
+theorem source_take_rechecks : takeRechecks = true := by decide
+
+/-- **no_send_on_revoked_credit (C08).** Whatever flows the session task applies while a send that had
+    seen a credit waits for room — a lower credit, a delivery-count that uses the credit up, a drain — the
+    send transmits only if, after the last of them, there is a credit to take, and it takes exactly that
+    one: the latest flow decides, not the one the send saw before it started waiting. -/
+theorem no_send_on_revoked_credit (s : SSt) (flows : List LFlow) (s' : SSt) (tag : Nat)
+    (h : takeAfterRoomAsSource s flows = (s', some tag)) :
+    0 < (takeAfterRoom.replay' s flows).lc ∧ tag = (takeAfterRoom.replay' s flows).dc ∧
+    s'.lc = (takeAfterRoom.replay' s flows).lc - 1 := by
+  unfold takeAfterRoomAsSource takeAfterRoom at h
+  rw [source_take_rechecks] at h
+  simp only [if_true] at h
+  unfold consume at h
+  split at h
+  · rename_i hc
+    split at hc
+    · cases hc
+    · rename_i hlt
+      injection hc with hc
+      injection hc with h1 h2
+      injection h with h3 h4
+      injection h4 with h4
+      subst h1 h2 h3
+      simp only [consume_link_credit.cond_if_0] at hlt
+      refine ⟨by simp at hlt; omega, h4.symm, ?_⟩
+      simp [consume_link_credit.assign_link_credit_0, ssub32]
+  · injection h with _ h4
+    cases h4
+
+/-- taking the credit without looking again (a seeded change) transmits on a credit a flow took back -/
+example : (takeAfterRoom false { dc := 2, lc := 1, initDc := 0, drain := false }
+    [{ dc := some 1, credit := some 1, drain := false, echo := false }]).2 = some 2 := by decide
+example : (takeAfterRoomAsSource { dc := 2, lc := 1, initDc := 0, drain := false }
+    [{ dc := some 1, credit := some 1, drain := false, echo := false }]).2 = none := by decide
+
 theorem source_replay_oldest_first : replayOldestFirst = true := by decide
 
 theorem onFlow_no_drain (s : SSt) (f : LFlow) (hd : f.drain = false) :
